@@ -177,7 +177,12 @@ class Ctx:
 
     def __init__(self, wd):
         self.wd = wd
-        self.worker = vlib.build_harness("w_crash", kind="plain")
+        # several checks may start at the same time (C08 and C09, several seeds): build the shared worker under a lock
+        import fcntl
+        os.makedirs(vlib.HB, exist_ok=True)
+        with open(os.path.join(vlib.HB, ".w_crash.lock"), "w") as lk:
+            fcntl.flock(lk, fcntl.LOCK_EX)
+            self.worker = vlib.build_harness("w_crash", kind="plain")
         self.src = write_sources(os.path.join(wd, "src"))
         self.wrapper = write_wrapper(os.path.join(wd, "ccwrap.sh"))
 
